@@ -332,7 +332,7 @@ theorem declare_same (s : St) (x : Var) (o : Nat) :
 
 theorem sound_atom (a : Atom) {s : St} {σ : Env} {D : List Var}
     {top : List (Var × Nat)} {rest : List (List (Var × Nat))}
-    (hI : Inv s σ D) (hs : s.scopes = top :: rest) (hl : s.loops = 0)
+    (hI : Inv s σ D) (hs : s.scopes = top :: rest) (hl : s.loops = 0 ∨ (Stmt.atom a).hasJump = false)
     (hde : s.ri.definitelyExited = false) (he : (checkAtom s a).errs = [])
     (hfresh : ∀ x ∈ (Stmt.atom a).declNames, x ∉ D) :
     ∃ σ', run σ (atomEvents a).1 = some σ' ∧
@@ -397,8 +397,14 @@ theorem sound_atom (a : Atom) {s : St} {σ : Env} {D : List Var}
     show ((s.useCheck x).useCheck y).ri.definitelyExited = false ∧ Inv ((s.useCheck x).useCheck y) σ D
     rw [hid, hid']; exact ⟨hde, hI⟩
   | skip => exact ⟨σ, rfl, hde, hI⟩
-  | brk o => simp [checkAtom, hl, St.report] at he
-  | cont o => simp [checkAtom, hl, St.report] at he
+  | brk o =>
+    rcases hl with hl | hl
+    · simp [checkAtom, hl, St.report] at he
+    · simp [Stmt.hasJump] at hl
+  | cont o =>
+    rcases hl with hl | hl
+    · simp [checkAtom, hl, St.report] at he
+    · simp [Stmt.hasJump] at hl
   | ret =>
     have he0 : (s.lossCheck s.scopes.flatten).errs = [] := he
     obtain ⟨_, hor⟩ := lossCheck_ok he0
@@ -433,63 +439,6 @@ theorem Post.state_irrel {o : Out} {s s' : St} {σ : Env} {D D' : List Var} (h :
   | brk => exact h
   | cont => exact h
 
-/-- the statement-level soundness, parameterised by the treatment of the compound statements so
-    that the fragments share one induction -/
-theorem sound_stmt (t : Stmt) : ∀ (s : St) (σ : Env) (D : List Var) (π : List Ev) (o : Out)
-    (top : List (Var × Nat)) (rest : List (List (Var × Nat))),
-    t.hasBranch = false → s.scopes = top :: rest → s.loops = 0 → s.ri.definitelyExited = false →
-    (check s t).errs = [] → Path t π o → Inv s σ D → (∀ x ∈ t.declNames, x ∉ D) → t.declNames.Nodup →
-    ∃ σ', run σ π = some σ' ∧ Post o (check s t) σ' (t.declNames ++ D) := by
-  induction t with
-  | nop =>
-    intro s σ D π o top rest _ hs hl hde he hp hI _ _
-    cases hp
-    exact ⟨σ, rfl, hde, hI⟩
-  | seq a b iha ihb =>
-    intro s σ D π o top rest hb hs hl hde he hp hI hfresh hnd
-    simp only [Stmt.hasBranch, Bool.or_eq_false_iff] at hb
-    simp only [Stmt.declNames] at hfresh hnd
-    have hnda := (List.nodup_append.1 hnd).1
-    have hndb := (List.nodup_append.1 hnd).2.1
-    have hdisj := (List.nodup_append.1 hnd).2.2
-    simp only [check] at he
-    by_cases hc : ((check s a).ri.definitelyExited && !b.isNop) = true
-    · simp [hc, St.report] at he
-    · simp only [hc, Bool.false_eq_true, if_false] at he
-      have hea : (check s a).errs = [] := check_errs_nil he
-      have hcheck : check s (.seq a b) = check (check s a) b := by simp only [check, hc, Bool.false_eq_true, if_false]
-      cases hp with
-      | seqStop hpa hne =>
-        obtain ⟨σ', hr, hP⟩ := iha s σ D _ _ top rest hb.1 hs hl hde hea hpa hI
-          (fun x hx => hfresh x (List.mem_append.2 (Or.inl hx))) hnda
-        exact ⟨σ', hr, hP.state_irrel hne⟩
-      | seqGo hpa hpb =>
-        obtain ⟨σ1, hr1, hde1, hI1⟩ := iha s σ D _ _ top rest hb.1 hs hl hde hea hpa hI
-          (fun x hx => hfresh x (List.mem_append.2 (Or.inl hx))) hnda
-        obtain ⟨la, hsc, _, hlo⟩ := check_frame a s top rest hs
-        obtain ⟨σ2, hr2, hP⟩ := ihb (check s a) σ1 (a.declNames ++ D) _ _ (la ++ top) rest hb.2 hsc
-          (hlo.trans hl) hde1 he hpb hI1
-          (fun x hx hm => by
-            rcases List.mem_append.1 hm with hm | hm
-            · exact hdisj x hm x hx rfl
-            · exact hfresh x (List.mem_append.2 (Or.inr hx)) hm) hndb
-        refine ⟨σ2, run_append_some hr1 hr2, ?_⟩
-        rw [hcheck]
-        refine hP.mono ?_
-        intro x hx
-        simp only [Stmt.declNames, List.mem_append] at hx ⊢
-        rcases hx with hx | hx | hx
-        · exact Or.inl (Or.inr hx)
-        · exact Or.inl (Or.inl hx)
-        · exact Or.inr hx
-  | atom a =>
-    intro s σ D π o top rest _ hs hl hde he hp hI hfresh _
-    cases hp
-    exact sound_atom a hI hs hl hde he hfresh
-  | ite t e _ _ => intro s σ D π o top rest hb; simp [Stmt.hasBranch] at hb
-  | iflet y yo x xo t e _ _ => intro s σ D π o top rest hb; simp [Stmt.hasBranch] at hb
-  | «while» b _ => intro s σ D π o top rest hb; simp [Stmt.hasBranch] at hb
-
 /-! ### blocks and functions -/
 
 theorem declared_sub (t : Stmt) : ∀ x ∈ declared t, x ∈ t.declNames := by
@@ -515,92 +464,6 @@ theorem lossFold_same (vs : List (Var × Nat)) (s : St) :
     · exact ih s
     · exact ih (s.report .loss)
 
-/-- a scoped block (`checkBlock`) whose statements are in the fragment of `sound_stmt` -/
-theorem sound_block {t : Stmt} {s : St} {σ : Env} {D : List Var} {π : List Ev} {o : Out} {errs0 : List Err}
-    (hb : t.hasBranch = false) (hl : s.loops = 0) (hde : s.ri.definitelyExited = false)
-    (he : (St.leave s (check ((s.branch errs0).enter []) t)).errs = [])
-    (hp : Path t π o) (hI : Inv s σ D) (hfresh : ∀ x ∈ t.declNames, x ∉ D) (hnd : t.declNames.Nodup) :
-    ∃ σ', run σ (blk [] t π o) = some σ' ∧
-      Post o (St.leave s (check ((s.branch errs0).enter []) t)) σ' (t.declNames ++ D) := by
-  have hec : (check ((s.branch errs0).enter []) t).errs = [] :=
-    errs_nil_of_mono (f := St.leave s) (leave_errs s) he
-  have hI0 : Inv ((s.branch errs0).enter []) σ D :=
-    { valid := hI.valid, gone := hI.gone, present := hI.present, inScope := hI.inScope, invD := hI.invD,
-      loc := by intro x hx; simp [St.branch, St.enter] at hx, namesD := hI.namesD, wf := hI.wf }
-  obtain ⟨σ1, hr1, hP⟩ := sound_stmt t ((s.branch errs0).enter []) σ D π o [] s.scopes hb rfl hl hde hec hp hI0 hfresh hnd
-  obtain ⟨l, hsc, hld, _⟩ := check_frame t ((s.branch errs0).enter []) [] s.scopes rfl
-  generalize hc : check ((s.branch errs0).enter []) t = c at *
-  have hnames : names c = List.map (fun p : Var × Nat => p.1) (l ++ []) ++ names s := by simp [names, hsc]
-  unfold St.leave at he ⊢
-  obtain ⟨hid, hor⟩ := lossCheck_ok he
-  rw [hid]
-  have hD' : ∀ x ∈ D, x ∈ t.declNames ++ D := fun x hx => List.mem_append.2 (Or.inr hx)
-  cases o with
-  | brk => exact absurd hP id
-  | cont => exact absurd hP id
-  | halt => exact ⟨σ1, by simpa [blk, closeScope] using hr1, trivial⟩
-  | ret =>
-    have hall : (declared t).all (fun x => σ1.get x != some .valid) = true := by
-      simp only [List.all_eq_true, bne_iff_ne]; intro x _; exact hP x
-    refine ⟨σ1.remove (declared t), ?_, ?_⟩
-    · have : run σ1 [Ev.scopeEnd (declared t)] = some (σ1.remove (declared t)) := by simp [run, step, hall]
-      simpa [blk, closeScope] using run_append_some hr1 this
-    · intro x hv
-      by_cases hx : x ∈ declared t
-      · rw [Env.get_remove_mem _ _ _ hx] at hv; exact absurd hv (by simp)
-      · rw [Env.get_remove_other _ _ _ hx] at hv; exact hP x hv
-  | fall =>
-    obtain ⟨hde1, hI1⟩ := hP
-    have hdef : ∀ v ∈ c.scopes.headD [], c.inv.definitely v.1 = true := by
-      rcases hor with ⟨h, _⟩ | h
-      · rw [hde1] at h; exact absurd h (by simp)
-      · exact h
-    have hout : ∀ x ∈ names s, x ∉ declared t := fun x hx hd => hfresh x (declared_sub t x hd) (hI.namesD x hx)
-    have hall : (declared t).all (fun x => σ1.get x != some .valid) = true := by
-      simp only [List.all_eq_true, bne_iff_ne]
-      intro x hx hv
-      have hxc : x ∈ names c := hI1.inScope x (by rw [hv]; simp)
-      rw [hnames] at hxc
-      rcases List.mem_append.1 hxc with hxl | hxs
-      · obtain ⟨p, hp', hpx⟩ := List.mem_map.1 hxl
-        have hxc' : x ∈ names c := by rw [hnames]; exact List.mem_append.2 (Or.inl hxl)
-        have := hI1.gone x hxc' (by rw [← hpx]; exact hdef p (by rw [hsc]; exact hp'))
-        rw [hv] at this; exact absurd this (by simp)
-      · exact hout x hxs hx
-    refine ⟨σ1.remove (declared t), ?_, hde1, ?_⟩
-    · have : run σ1 [Ev.scopeEnd (declared t)] = some (σ1.remove (declared t)) := by simp [run, step, hall]
-      simpa [blk, closeScope] using run_append_some hr1 this
-    · have hn : names { c with scopes := s.scopes } = names s := rfl
-      have hin : ∀ x ∈ names s, x ∈ names c := fun x hx => by rw [hnames]; exact List.mem_append.2 (Or.inr hx)
-      constructor
-      · intro x hx hg
-        rw [hn] at hx
-        rw [Env.get_remove_other _ _ _ (hout x hx)]
-        exact hI1.valid x (hin x hx) hg
-      · intro x hx hg
-        rw [hn] at hx
-        rw [Env.get_remove_other _ _ _ (hout x hx)]
-        exact hI1.gone x (hin x hx) hg
-      · intro x hx
-        rw [hn] at hx
-        rw [Env.get_remove_other _ _ _ (hout x hx)]
-        exact hI1.present x (hin x hx)
-      · intro x hx
-        rw [hn]
-        by_cases hxd : x ∈ declared t
-        · rw [Env.get_remove_mem _ _ _ hxd] at hx; exact absurd rfl hx
-        · rw [Env.get_remove_other _ _ _ hxd] at hx
-          have hxc := hI1.inScope x hx
-          rw [hnames] at hxc
-          rcases List.mem_append.1 hxc with hxl | hxs
-          · obtain ⟨p, hp', hpx⟩ := List.mem_map.1 hxl
-            exact absurd (hpx ▸ hld p (by simpa using hp')) hxd
-          · exact hxs
-      · exact hI1.invD
-      · exact hI1.loc
-      · intro x hx; rw [hn] at hx; exact hD' x (hI.namesD x hx)
-      · exact hI1.wf
-
 theorem params_init (ps : List (Var × Nat)) : ∀ (σ : Env), (ps.map (·.1)).Nodup →
     (∀ p ∈ ps, σ.get p.1 = none) →
     ∃ σ', run σ (ps.map fun p => Ev.create p.1) = some σ' ∧
@@ -624,93 +487,5 @@ theorem params_init (ps : List (Var × Nat)) : ∀ (σ : Env), (ps.map (·.1)).N
     · by_cases hxp : x = p.1
       · subst hxp; simp [hx, Env.get_set_self]
       · simp [hx, hxp, Env.get_set_other _ _ _ _ hxp]
-
-/-- soundness for straight-line functions -/
-theorem sound_fn_straight (f : Fn) (hb : f.body.hasBranch = false)
-    (hnd : (f.params.map (·.1) ++ f.body.declNames).Nodup) (hc : linCheck f = []) :
-    AllLinear f := by
-  intro π o hp
-  cases hp with
-  | mk hpath ho =>
-  rename_i π0
-  have hndp := (List.nodup_append.1 hnd).1
-  have hndb := (List.nodup_append.1 hnd).2.1
-  have hdisj := (List.nodup_append.1 hnd).2.2
-  obtain ⟨σ0, hr0, hg0⟩ := params_init f.params [] hndp (fun _ _ => rfl)
-  have hc' : (linState f).errs = [] := hc
-  unfold linState at hc'
-  simp only [] at hc'
-  generalize hs0 : ({ scopes := [f.params.reverse] } : St) = s0 at hc'
-  have hs0sc : s0.scopes = [f.params.reverse] := by rw [← hs0]
-  have hs0inv : s0.inv = [] := by rw [← hs0]
-  have hs0loc : s0.locals = [] := by rw [← hs0]
-  have hs0ri : s0.ri = {} := by rw [← hs0]
-  have hs0lo : s0.loops = 0 := by rw [← hs0]
-  have hn0 : ∀ x, x ∈ names s0 ↔ x ∈ f.params.map (·.1) := by
-    intro x; simp [names, hs0sc]
-  have hI0 : Inv s0 σ0 (f.params.map (·.1)) :=
-    { valid := fun x hx _ => by rw [hg0 x]; simp [(hn0 x).1 hx]
-      gone := fun x _ h => by simp [hs0inv, Invs.definitely, Invs.get] at h
-      present := fun x hx => by rw [hg0 x]; simp [(hn0 x).1 hx]
-      inScope := fun x hx => by
-        rw [hg0 x] at hx
-        by_cases hm : x ∈ f.params.map (·.1)
-        · exact (hn0 x).2 hm
-        · simp [hm, Env.get] at hx
-      invD := fun x hx => by simp [hs0inv, Invs.get] at hx
-      loc := fun x hx => by simp [hs0loc] at hx
-      namesD := fun x hx => (hn0 x).1 hx
-      wf := ⟨fun h => by simp [hs0ri] at h, fun h => by simp [hs0ri] at h⟩ }
-  have e : (s0.branch s0.errs).enter [] = s0.enter [] := by rw [← hs0]; rfl
-  have hs1 : (St.leave s0 (check ((s0.branch s0.errs).enter []) f.body)).errs = [] := by
-    rw [e]
-    by_cases hh : (St.leave s0 (check (s0.enter []) f.body)).ri.definitelyHalted = true
-    · simpa [hh] using hc'
-    · have : ((St.leave s0 (check (s0.enter []) f.body)).lossCheck f.params).errs = [] := by
-        simpa [hh] using hc'
-      exact errs_nil_of_mono (f := fun s => s.lossCheck f.params) (fun s => lossCheck_errs s _) this
-  obtain ⟨σ1, hr1, hP⟩ := sound_block (errs0 := s0.errs) hb hs0lo (by rw [hs0ri]) hs1 hpath hI0
-    (fun x hx hm => hdisj x hm x hx rfl) hndb
-  rw [e] at hP hs1
-  generalize hs1' : St.leave s0 (check (s0.enter []) f.body) = s1 at hP hs1 hc'
-  unfold Linear
-  rcases ho with rfl | rfl | rfl
-  · -- fall
-    obtain ⟨hde1, hI1⟩ := hP
-    have hnh : s1.ri.definitelyHalted = false := by
-      cases h : s1.ri.definitelyHalted with
-      | false => rfl
-      | true => have := hI1.wf.dh h; rw [hde1] at this; exact absurd this (by simp)
-    have hl : (s1.lossCheck f.params).errs = [] := by simpa [hnh] using hc'
-    obtain ⟨_, hor⟩ := lossCheck_ok hl
-    have hdef : ∀ v ∈ f.params, s1.inv.definitely v.1 = true := by
-      rcases hor with ⟨h, _⟩ | h
-      · rw [hde1] at h; exact absurd h (by simp)
-      · exact h
-    have hsc1 : s1.scopes = s0.scopes := by rw [← hs1']; exact (leave_frame _ _).1
-    have hall : (f.params.map (·.1)).all (fun x => σ1.get x != some .valid) = true := by
-      simp only [List.all_eq_true, bne_iff_ne]
-      intro x hx hv
-      obtain ⟨p, hp', hpx⟩ := List.mem_map.1 hx
-      have hxn : x ∈ names s1 := by simp only [names, hsc1]; exact (hn0 x).2 hx
-      have := hI1.gone x hxn (by rw [← hpx]; exact hdef p hp')
-      rw [hv] at this; exact absurd this (by simp)
-    have : run σ1 [Ev.scopeEnd (f.params.map (·.1))] = some (σ1.remove (f.params.map (·.1))) := by
-      simp [run, step, hall]
-    have h2 := run_append_some (run_append_some hr0 hr1) this
-    simp only [closeScope]
-    rw [h2]; rfl
-  · -- ret
-    have hall : (f.params.map (·.1)).all (fun x => σ1.get x != some .valid) = true := by
-      simp only [List.all_eq_true, bne_iff_ne]; intro x _; exact hP x
-    have : run σ1 [Ev.scopeEnd (f.params.map (·.1))] = some (σ1.remove (f.params.map (·.1))) := by
-      simp [run, step, hall]
-    have h2 := run_append_some (run_append_some hr0 hr1) this
-    simp only [closeScope]
-    rw [h2]; rfl
-  · -- halt
-    have h2 := run_append_some hr0 hr1
-    simp only [closeScope]
-    rw [h2]; rfl
 
 end Verif.Proofs.Lin
